@@ -7,3 +7,4 @@ import MicroHttp.Props.Tables
 #print axioms MicroHttp.Tables.event_array_extra
 #print axioms MicroHttp.Tables.max_connections
 #print axioms MicroHttp.Tables.no_shared_state
+#print axioms MicroHttp.Tables.no_interior_mutability
